@@ -111,6 +111,14 @@ CHECKS.append({
     "technique": "Coq proof on the slot-assignment model + emitted-text/metadata cross-check oracle on generated resource programs",
 })
 
+CHECKS.append({
+    "property_id": "C18",
+    "text": "Coq theorems: on the macro model of C12, two macro tables that differ only in the definitions of RSSL_TARGET_HLSL / RSSL_TARGET_MSL give, for every paste function that cannot produce those names and every token list that does not mention them, the same expansion (proved by a simulation of the expander that carries the invariant 'no such name occurs' through arguments, replacement lists and pastes), and the same holds for whole files with #include, #define, #undef and #pragma once: the same tokens reach the parser, or the same error, whatever the target. On the slot model of C06/C05 the set of bound declarations, their descriptor kinds and counts do not depend on the target's parameter record (static samplers aside), and only buffer addresses become inline constants, only when the record supports them. On the implementation, every repository source, 22 accepted and rejected programs and generated resource programs are compiled for all four target configurations: front-end diagnostics must be identical, the HLSL flavours must succeed or fail together, and stages, thread-group sizes, pipeline state, binding names / kinds / counts and the HLSL texts modulo binding annotations must agree.",
+    "design_ref": "DESIGN.md §4 C18",
+    "note": "Partial: that the shared front end is a function of the preprocessed tokens alone is read off compile(), not proved; the exporters' agreement is observed. The macro theorem inherits the tie of C12's model to the preprocessor.",
+    "technique": "Coq proof (simulation on the macro expander model; corollaries of the slot model) + cross-target comparison on the implementation",
+})
+
 _claimed = {c["property_id"] for c in CHECKS}
 NOT_APPLICABLE = [
     {"property_id": p, "reason": "not yet claimed: model/theorems under construction (see DESIGN.md build order); no check registered until it passes on the unchanged tree"}
